@@ -57,6 +57,7 @@ const (
 	kTruncAll
 	kPattern
 	kCLI
+	kLongLexeme
 )
 
 func (e Engine) Plan(tier string, seed uint64) []simrt.Case {
@@ -79,6 +80,13 @@ func (e Engine) Plan(tier string, seed uint64) []simrt.Case {
 	}
 	for i := 0; i < nCLI; i++ {
 		add(simrt.Mix(seed, 14, 3, uint64(i)), "cli", kCLI)
+	}
+	nLong := 6
+	if tier == "thorough" {
+		nLong = 60
+	}
+	for i := 0; i < nLong; i++ {
+		add(simrt.Mix(seed, 14, 4, uint64(i)), "long-lexeme", kLongLexeme)
 	}
 	return cs
 }
@@ -319,7 +327,7 @@ func countFaults(res *simrt.Result, plan simrt.ReadPlan, rd *simrt.SimReader, cu
 	}
 }
 
-var nastyBytes = [][]byte{{0}, {0x80}, {0xff}, {0xc3}, {0xc3, 0xa9}, {0xe2, 0x82, 0xac}, {0xf0, 0x9f, 0x8c, 0xb5}, {0xed, 0xa0, 0x80}, {'\\'}, {'"'}, {'/'}, {'*'}, {'$'}, {'@'}, {0x7f}, {0x1b}, {'\r'}, {0xf4, 0x90, 0x80, 0x80}, {0xe0, 0x80}}
+var nastyBytes = gen.NastyBytes
 
 func (e Engine) Run(t *simrt.Tape, c simrt.Case, x *simrt.Ctx) *simrt.Result {
 	res := simrt.NewResult()
@@ -427,10 +435,56 @@ func (e Engine) Run(t *simrt.Tape, c simrt.Case, x *simrt.Ctx) *simrt.Result {
 			res.Sample = map[string]any{"kind": "text", "mode": s.Mode, "text_excerpt": string(text[:min(len(text), 200)]), "evaluations": nEval}
 		}
 
+	case kLongLexeme:
+		// one lexeme whose length is at, just below or just above 1x, 2x, 3x the buffer size
+		kinds := []string{"string_literal", "regex", "ident", "token_name", "line_comment", "block_comment", "blanks", "predef"}
+		for _, kind := range kinds {
+			for kd := 0; kd < 21; kd++ {
+				k, d := 1+kd/7, -3+kd%7
+				n := k*B + d
+				var text string
+				body := strings.Repeat("a", n)
+				switch kind {
+				case "string_literal":
+					text = "grammar g;\nstart = \"" + body[:n-2] + "\";\n"
+				case "regex":
+					text = "grammar g;\nT = /" + body[:n-2] + "/;\nstart = T;\n"
+				case "ident":
+					text = "grammar g;\nstart = " + body + ";\n" + body + " = \"x\";\n"
+				case "token_name":
+					nm := strings.Repeat("A", n)
+					text = "grammar g;\n" + nm + " = \"x\";\nstart = " + nm + ";\n"
+				case "line_comment":
+					text = "grammar g;\n//" + body[:n-2] + "\nstart = \"x\";\n"
+				case "block_comment":
+					text = "grammar g;\n/*" + body[:n-4] + "*/\nstart = \"x\";\n"
+				case "blanks":
+					text = "grammar g;\n" + strings.Repeat(" ", n) + "start = \"x\";\n"
+				case "predef":
+					text = "grammar g;\nT = $" + strings.Repeat("A", n-1) + ";\nstart = T;\n"
+				}
+				lead := t.Draw(B)
+				buf := []byte(strings.Repeat(" ", lead) + text)
+				for _, which := range []int{0, 1, 3} {
+					cr := callEntry(which, buf, simrt.FullPlan())
+					res.Evals++
+					res.Key(cr.name, "long_lexeme", kind, k, d, outcomeClass(cr))
+					if cls, msg := judge(cr, len(buf), B); cls != "" {
+						if id := knownFinding(x, cls); id != "" {
+							res.Known[id]++
+							continue
+						}
+						res.Violation = &simrt.Violation{Class: cls + "[long_" + kind + "]", Message: fmt.Sprintf("a %s lexeme of %d bytes (%d*B%+d, B=%d) after %d leading blanks: %s", kind, n, k, d, B, lead, msg), Detail: map[string]any{"kind": kind, "length": n, "lead": lead}}
+						return res
+					}
+				}
+			}
+		}
+
 	case kPattern:
 		n := 40
 		for i := 0; i < n; i++ {
-			p, shape := genPattern(t)
+			p, shape := gen.GenPattern(t)
 			for which, name := range []string{"nfa.Parse", "regex/ast.Parse+ToDFA"} {
 				var gotNil bool
 				var err error
@@ -480,7 +534,7 @@ func (e Engine) Run(t *simrt.Tape, c simrt.Case, x *simrt.Ctx) *simrt.Result {
 			}
 		}
 		if c.Index%10 == 0 {
-			p, shape := genPattern(simrt.NewTape(c.Seed))
+			p, shape := gen.GenPattern(simrt.NewTape(c.Seed))
 			res.Sample = map[string]any{"kind": "patterns", "first_pattern": p, "shape": shape, "patterns": n}
 		}
 
@@ -676,82 +730,4 @@ func isRegexLexeme(p string) bool {
 	}
 	// must not start a comment and must not end in an escaped slash (over-trimmed by the scanner)
 	return !esc && p[0] != '*' && p[0] != '/' && !strings.HasSuffix(p, `\/`)
-}
-
-// ---- pattern generator --------------------------------------------------------------------------
-
-var atoms = []string{"a", "b", "z", "0", "_", " ", ".", `\d`, `\D`, `\w`, `\W`, `\s`, `\S`, `\.`, `\*`, `\\`, `\(`, `\[`, `\{`, `\$`, `\|`,
-	`\x41`, `\x7F`, `\x00`, `\xFF`, `\x0100`, `\x20AC`, `\x1F335`, `\x0010FFFF`, `\x00110000`, "é", "€", "🌵", `\p{L}`, `\p{Lu}`, `\P{Nd}`, `\p{Greek}`, `\p{Nope}`, `\p{}`,
-	"[:alpha:]", "[:digit:]", "[:word:]", "[:nope:]", "$", "^", "-", ",", "}", "]", ")", "?", "+", "*", "|", "(", "[", "{"}
-var groupItems = []string{"a", "z", "0", "9", "_", "-", "^", "]", `\]`, `\\`, `\d`, `\w`, `\s`, "a-z", "0-9", "A-Z", "z-a", "a-", "-a", `\x41`, `\x41-\x5A`, `\xFF`, `\x80-\xFF`, `\x0100`, `\x0100-\x0200`,
-	"é", "€", "a-é", "🌵", "[:alpha:]", "[:digit:]", "[:ascii:]", "[:nope:]", `\p{L}`, `\P{L}`, " ", ".", "*", "(", "|"}
-var quants = []string{"", "", "", "?", "*", "+", "??", "*?", "+?", "{2}", "{0}", "{1,3}", "{2,}", "{,3}", "{3,1}", "{}", "{a}", "{20}", "{0,0}", "{1,1}?"}
-
-func genPattern(t *simrt.Tape) (string, string) {
-	var b strings.Builder
-	shape := "plain"
-	switch t.Draw(12) {
-	case 0:
-		return "", "empty"
-	case 1:
-		shape = "anchored"
-		b.WriteString("^")
-	}
-	n := 1 + t.Draw(5)
-	for i := 0; i < n; i++ {
-		switch t.Draw(6) {
-		case 0, 1:
-			a := atoms[t.Draw(len(atoms))]
-			b.WriteString(a)
-			if strings.HasPrefix(a, `\x`) || a[0] >= 0x80 {
-				shape = "non_ascii_or_escape"
-			}
-		case 2: // bracket group
-			b.WriteString("[")
-			if t.Chance(1, 3) {
-				b.WriteString("^")
-			}
-			m := t.Draw(4)
-			for j := 0; j < m; j++ {
-				b.WriteString(groupItems[t.Draw(len(groupItems))])
-			}
-			if !t.Chance(1, 10) {
-				b.WriteString("]")
-			}
-			shape = "bracket_group"
-		case 3: // group
-			b.WriteString("(")
-			b.WriteString(atoms[t.Draw(len(atoms))])
-			if t.Chance(1, 2) {
-				b.WriteString("|")
-				b.WriteString(atoms[t.Draw(len(atoms))])
-			}
-			if !t.Chance(1, 10) {
-				b.WriteString(")")
-			}
-			if shape == "plain" {
-				shape = "group"
-			}
-		case 4:
-			b.WriteString(atoms[t.Draw(20)])
-		case 5:
-			b.WriteString("|")
-		}
-		b.WriteString(quants[t.Draw(len(quants))])
-	}
-	p := b.String()
-	// one-edit mutation
-	if t.Chance(1, 4) && len(p) > 0 {
-		at := t.Draw(len(p))
-		switch t.Draw(3) {
-		case 0:
-			p = p[:at] + p[at+1:]
-		case 1:
-			p = p[:at] + string(nastyBytes[t.Draw(len(nastyBytes))]) + p[at:]
-		default:
-			p = p[:at] + atoms[t.Draw(len(atoms))] + p[at:]
-		}
-		shape += "+edit"
-	}
-	return p, shape
 }
